@@ -13,6 +13,9 @@ Tie to the code (no generated table: the models are small and fixed; everything 
            InteractiveContext stepping by hand.  The probe log (channel, listener, clock, event.time, event.step_size,
            life-cycle state), the SimulantData seen by initializers, the final clock and the number of step() calls are
            compared with Stepper.check_sim.
+  `var`    per-simulant step sizes (a step-size modifier): the stepping loop around a changing global step, interactive
+           sessions (run_until / run_for to arbitrary end times) included; the step sizes are read into a table (C10's).
+  `raise`  one listener raises from a chosen step on: the step is abandoned on the spot (Stepper.check_raise).
   `grid`   the same check on light contexts (one listener) over a boundary-rich grid of (start, end, step).
 Times are integers: nanoseconds for DateTimeClock (the Timedelta the clock actually built from the float configuration is
 READ - the float -> Timedelta conversion is glue outside the model and is reported), quarter units for SimpleClock.
@@ -49,7 +52,10 @@ RULE = ("chan: 0-40 registrations over 1-4 channels (priority 0-9 70%, default 1
 ASSUMPTIONS = [
     "clock arithmetic is exact integer arithmetic (Timestamp/Timedelta are int64 nanosecond counts; SimpleClock values "
     "used here are multiples of 1/4, exact in binary64); |t| < 2^63",
-    "listeners and initializers do not raise and do not call back into the context",
+    "listeners and initializers do not call back into the context (re-entrancy is C06's subject); initializers do not "
+    "raise; a LISTENER that raises is modelled (step_r / run_simulation_r) and exercised by the stream `raise` with the "
+    "raising listener alone in its bucket (inside one bucket the call order, hence who ran before it, is unspecified)",
+    "priorities outside 0..9 are outside the property: a channel that accepted one is left out of the comparison",
 ]
 
 LEVEL_NOTE = ("full for fixed-step clocks (both plugins); C08_simulation_trace carries the guard start < stop: a run of length "
@@ -108,6 +114,29 @@ def gen_chan(rng: random.Random):
             "stamps": rng.random() < 0.3}
 
 
+class _Anything:
+    """permissive stand-in: any attribute, any call"""
+
+    def __getattr__(self, name):
+        return _Anything()
+
+    def __call__(self, *a, **k):
+        return _Anything()
+
+
+class _FakeBuilder(_Anything):
+    def __init__(self, mgr, clock, step):
+        self.time = _Anything()
+        self.time.clock = lambda: clock
+        self.time.step_size = lambda: step
+        self.event = _Anything()
+        self.event.register_listener = lambda *a, **k: mgr.register_listener(*a, **k)
+        self.event.get_emitter = lambda *a, **k: mgr.get_emitter(*a, **k)
+        self.lifecycle = _Anything()
+        self.lifecycle.add_constraint = lambda *a, **k: None
+        self.lifecycle.add_handlers = lambda *a, **k: None
+
+
 def run_chan(case):
     import pandas as pd
     from vivarium.framework.event import EventManager
@@ -121,8 +150,9 @@ def run_chan(case):
         t0, st = case["clock"], case["step"]
         clock_i, step_i = t0, st
         conv = int
-    mgr.clock = lambda: t0
-    mgr.step_size = lambda: st
+    # the manager is set up through its PUBLIC setup(builder) with a stand-in builder that supplies the clock and the step
+    # size (nothing of the manager's internals is touched; any other builder service it may ask for is a permissive dummy)
+    mgr.setup(_FakeBuilder(mgr, lambda: t0, lambda: st))
     log = []
 
     def make(lid):
@@ -135,6 +165,7 @@ def run_chan(case):
     atts = []
     expected = {n: [] for n in names}      # python oracle: accepted (bucket, seq, lid)
     ok, msg = True, ""
+    tainted = set()       # channels holding a listener registered with a priority outside 0..9 (outside the property)
     for seq, (c, p, k) in enumerate(case["regs"]):
         lid = k + 1
         fn = callables.setdefault(lid, make(lid))
@@ -146,23 +177,30 @@ def run_chan(case):
             code = 0
         except Exception as e:
             code = 1
+        if p is not None and not (0 <= p <= 9):
+            # the property speaks of priorities 0-9: whether another priority is refused or lands somewhere is not
+            # specified; a channel that accepted one is left out of the comparison, a refused one changes nothing
+            if code == 0:
+                tainted.add(names[c])
+                if bucket_of(p) is not None:
+                    expected[names[c]].append((bucket_of(p), seq, lid))
+            python_indexing = (bucket_of(p) is None) == (code == 1)
+            continue
         b = bucket_of(p)
-        if (b is None) != (code == 1):
-            ok, msg = False, f"register_listener(priority={p}) -> {'raised' if code else 'accepted'}"
-        if code == 0 and b is not None:
+        if code == 1:
+            ok, msg = False, f"register_listener(priority={p}) raised"
+        else:
             expected[names[c]].append((b, seq, lid))
         atts.append(cpair(cpair(cz(c), cz(5 if p is None else p), cz(lid)), cz(code)))
     ems = []
     ncalled = 0
     exact = True
     for c, name in enumerate(names):
+        if name in tainted:
+            continue
         del log[:]
         index = pd.Index([1, 2, 3])
-        try:
-            channel = mgr.get_channel(name)
-        except AttributeError:
-            channel = mgr._event_types[name]
-        ev = channel.emit(index, {"k": c})
+        ev = mgr.get_emitter(name)(index, {"k": c})
         called = [lid for lid, _ in log]
         ncalled += len(called)
         # ---- direct oracle: exactly the registered listeners (multiplicity), non-decreasing priority, event fields ----
@@ -194,7 +232,7 @@ def run_chan(case):
     return Result(ok=ok, msg=msg, coq=coq, key=(case["nch"], case["regs"], case["clock"], case["step"]) if ncalled else None,
                   obs={"called": ncalled, "exact_registration_order": exact},
                   tags=(f"regs{min(nreg, 40) // 10 * 10}+", "within_bucket_order_kept" if exact else "within_bucket_order_differs",
-                        "stamps" if case["stamps"] else "ints"))
+                        "stamps" if case["stamps"] else "ints") + (("channel_with_priority_outside_0_9_skipped",) if tainted else ()))
 
 
 # ----------------------------------------------------------------------------------------------------------------
@@ -384,6 +422,10 @@ def grid_corpus():
          if is_open_finding(PROPERTY, "F-V") else [])
 
 
+class ProbeError(Exception):
+    """what a raising probe listener raises"""
+
+
 def build_components(case, log, ilog, setup_seen):
     import pandas as pd
     from vivarium import Component
@@ -398,9 +440,13 @@ def build_components(case, log, ilog, setup_seen):
                 ev = event if event is not None else self_or_event
                 comp = self_or_event if event is not None else None
                 env = listen.env
-                log.append((channel, lid, env["clock"](), ev.time, ev.step_size, env["state"](),
+                now = env["clock"]()
+                log.append((channel, lid, now, ev.time, ev.step_size, env["state"](),
                             None if ev.index is None else len(ev.index)))
+                if listen.raise_at is not None and now >= listen.raise_at:
+                    raise ProbeError(f"listener {lid} raises at clock {now}")
             listen.env = None
+            listen.raise_at = None
             return listen
         listeners = []
         for h in HOOK_ORDER:
@@ -438,6 +484,9 @@ def build_components(case, log, ilog, setup_seen):
                 if ch not in per_channel:
                     fn = mk_listener(ch, _base + 100 + k)
                     fn.env = env
+                    rz = case.get("raiser")
+                    if rz and rz["lid"] == _base + 100 + k:
+                        fn.raise_at = env["clock"]() + rz["from"] * env["step"]()
                     per_channel[ch] = fn
                 fn = per_channel[ch]
                 if p is None:
@@ -455,12 +504,14 @@ class StepCounter:
 
     def __enter__(self):
         from vivarium.framework.engine import SimulationContext
-        self.cls, self.orig, self.n = SimulationContext, SimulationContext.step, 0
+        self.cls, self.orig, self.n, self.attempts = SimulationContext, SimulationContext.step, 0, 0
         me = self
 
         def step(sim, *a, **k):
-            me.n += 1
-            return me.orig(sim, *a, **k)
+            me.attempts += 1
+            r = me.orig(sim, *a, **k)
+            me.n += 1                      # completed steps only
+            return r
         SimulationContext.step = step
         return self
 
@@ -601,6 +652,7 @@ def run_sim(case):
     # ---- direct oracle (the property statement on the observation; integer arithmetic, independent of the Coq model) ----
     ok, msg = True, ""
     failures, fail_msgs = [], []
+    expect_raise = bool(case.get("raiser"))
 
     def fail(m, cls=None):
         nonlocal ok, msg
@@ -608,7 +660,7 @@ def run_sim(case):
         fail_msgs.append(m)
         if ok:
             ok, msg = False, m
-    if err is not None:
+    if err is not None and not expect_raise:
         from vivarium.framework.lifecycle import InvalidTransitionError
         if isinstance(err, InvalidTransitionError) and start_i >= stop_i and driver in (0, 1, 2, 3) and nsteps == 0:
             fail(f"a run of length zero cannot be finished: after 0 steps finalize raised {err!r}; simulation_end was "
@@ -623,6 +675,8 @@ def run_sim(case):
         return 0 if (a >= b or step_i <= 0) else (b - a + step_i - 1) // step_i
     if mods:
         return finish_var(case, locals())
+    if case.get("raiser"):
+        return finish_raise(case, locals())
     if driver == 6:
         # run_until / run_for to arbitrary end times: each call makes ceil((end - clock)/step) steps (none if end <= clock),
         # returns that number, and leaves the clock on the first grid point at or after the end
@@ -803,6 +857,176 @@ def finish_var(case, L):
                   tags=tuple(tags))
 
 
+def gen_raise(rng: random.Random):
+    """a fixed-step simulation of positive length in which one dedicated listener - alone in its bucket on its channel -
+    raises from a chosen step on"""
+    clock = rng.choice(["datetime", "simple"])
+    for _ in range(50):
+        t = gen_time(rng, clock, max_steps=10)
+        if not zero_length(t):
+            break
+    case = {"clock": clock, "time": t, "driver": rng.choice([0, 2, 1]), "pop": rng.randint(1, 3),
+            "comps": [gen_comp(rng, i) for i in range(rng.randint(1, 4))]}
+    if clock == "simple" and case["driver"] == 1:
+        case["time"] = one_type(t)
+    regs = expected_regs(case)
+    ch = rng.choice(LISTEN_CHANNELS)
+    used = {b for b, _, _ in regs.get(ch, [])}
+    free = [b for b in range(10) if b not in used] or [0]
+    if not [b for b in range(10) if b not in used]:
+        for spec in case["comps"]:                         # (never in practice) make room: drop the channel's other listeners
+            spec["hand"] = [h for h in spec["hand"] if h[0] != ch]
+            spec["hooks"].pop(str(CH[ch]), None)
+    i = rng.randrange(len(case["comps"]))
+    case["comps"][i]["hand"].append([ch, rng.choice(free), 100])
+    case["raiser"] = {"lid": (i + 1) * 1000 + 200, "channel": ch,
+                      "from": 0 if ch in ("post_setup",) else rng.choice([0, 0, 1, 2, 3, 50])}
+    return case
+
+
+def finish_raise(case, L):
+    """direct oracle for a run with a raising listener: everything before the raising call happened as in an ordinary run;
+    the raiser was called once; NOTHING was called after it; the clock stands where that step began; the exception
+    propagated; the number of completed steps is the number of steps before."""
+    ocalls, oinits, err, nsteps, driver = L["ocalls"], L["oinits"], L["err"], L["nsteps"], L["driver"]
+    start_i, stop_i, step_i, final_i, fail = L["start_i"], L["stop_i"], L["step_i"], L["final_i"], L["fail"]
+    tags = L["tags"]
+    rz = case["raiser"]
+    regs = expected_regs(case)
+    n_exp = L["ceil_steps"](start_i, stop_i)
+    seq = [("post_setup", start_i)]
+    for k in range(n_exp):
+        for ch in LISTEN_CHANNELS[1:5]:
+            seq.append((ch, start_i + k * step_i))
+    seq += [("simulation_end", start_i + n_exp * step_i), ("report", start_i + n_exp * step_i)]
+    raise_at = start_i + rz["from"] * step_i
+    hit = next((j for j, (ch, c) in enumerate(seq) if ch == rz["channel"] and c >= raise_at), None)
+    # expected visible groups: (channel, clock, listeners that must have been called (as a multiset per bucket), raiser last?)
+    exp_groups = []
+    for j, (ch, c) in enumerate(seq):
+        if hit is not None and j > hit:
+            break
+        ls = sorted(regs.get(ch, []))
+        if j == hit:
+            rb = [b for b, _, lid in ls if lid == rz["lid"]][0]
+            ls = [x for x in ls if x[0] < rb] + [x for x in ls if x[2] == rz["lid"]]
+        if ls:
+            exp_groups.append((ch, c, ls))
+    groups = []
+    for ch, lid, c, et, es, state, n in ocalls:
+        if not groups or groups[-1][0] != (ch, c):
+            groups.append(((ch, c), []))
+        groups[-1][1].append(lid)
+        if et != c + step_i or es != step_i:
+            fail(f"event {NAME_OF.get(ch, ch)} at clock {c}: time {et}, step_size {es}")
+    got = [(NAME_OF[k[0]], k[1]) for k, _ in groups]
+    want = [(ch, c) for ch, c, _ in exp_groups]
+    if got != want:
+        i = next((j for j, (a, b) in enumerate(zip(got, want)) if a != b), min(len(got), len(want)))
+        what = "after the raising listener " if len(got) > len(want) and got[:len(want)] == want else ""
+        fail(f"emissions {what}differ at #{i}: observed {got[i:i + 3]}, expected {want[i:i + 3]} "
+             f"({len(got)} vs {len(want)}; the raiser {rz['lid']} fires in emission {seq[hit] if hit is not None else None})")
+    else:
+        for ((chid, c), lids), (ch, _, ls) in zip(groups, exp_groups):
+            if sorted(lids) != sorted(lid for _, _, lid in ls):
+                fail(f"emission {ch}@{c}: called {lids}, expected {[lid for _, _, lid in ls]} "
+                     f"(listeners after the raising one must not be called)")
+            pos = 0
+            for b in range(10):
+                grp = sorted(lid for bb, _, lid in ls if bb == b)
+                if grp != sorted(lids[pos:pos + len(grp)]):
+                    fail(f"emission {ch}@{c}: calls {lids} not in priority order")
+                    break
+                pos += len(grp)
+    if hit is None:
+        if err is not None:
+            fail(f"the run raised {err!r} although the raising listener is never due")
+        exp_steps, exp_final, ocode_exp = n_exp, start_i + n_exp * step_i, 0
+    else:
+        if not isinstance(err, ProbeError):
+            fail(f"the listener's exception did not propagate: outcome {err!r}")
+        ch, c = seq[hit]
+        exp_steps = (c - start_i) // step_i if ch in LISTEN_CHANNELS[1:5] else (0 if ch == "post_setup" else n_exp)
+        exp_final, ocode_exp = c, 3
+    if nsteps != exp_steps:
+        fail(f"{nsteps} completed steps, expected {exp_steps}")
+    if final_i != exp_final:
+        fail(f"clock stands at {final_i} after the abandoned run, expected {exp_final} (the clock must not move)")
+    if hit is None or seq[hit][0] != "post_setup":
+        want_inits = sorted((i + 1) * 1000 + 3 for i, spec in enumerate(case["comps"]) if "3" in spec["hooks"])
+        if sorted(x[0] for x in oinits) != want_inits:
+            fail(f"initializers called: {sorted(x[0] for x in oinits)}, registered {want_inits}")
+    elif oinits:
+        fail("initializers ran although post_setup was abandoned")
+    from vivarium.framework.lifecycle import InvalidTransitionError
+    ocode = 0 if err is None else 3 if isinstance(err, ProbeError) else 1 if isinstance(err, InvalidTransitionError) else 2
+    tags += ["raises_in_" + (seq[hit][0] if hit is not None else "never"), f"completed_steps{min(nsteps, 3)}"]
+    obs = cpair(clist(cpair(cz(ch), cz(lid), cz(c), cz(et), cz(es), cz(state)) for ch, lid, c, et, es, state, n in ocalls),
+                clist(cpair(cz(lid), cz(ct), cz(cw), cz(c)) for lid, ct, cw, c, n in oinits),
+                cz(final_i), cz(nsteps), cz(ocode))
+    coq = "(" + cpair(cz(start_i), cz(stop_i), cz(step_i), cz(rz["lid"]), cz(raise_at), coq_comps(case), obs) + " : raise_case)"
+    return Result(ok=not L["failures"], msg=L["fail_msgs"][0] if L["fail_msgs"] else "", coq=coq,
+                  key=(case["clock"], str(case["time"]), case["driver"], str(case["raiser"]), str(case["comps"])),
+                  obs={"nsteps": nsteps, "final": final_i, "calls": len(ocalls), "error": repr(err) if err else None,
+                       "raiser": rz, "finding_class": None},
+                  tags=tuple(tags))
+
+
+def raise_corpus():
+    comps = [{"hooks": {"4": 0, "5": 5, "6": 5, "7": 5, "8": 5, "3": None}, "hand": [["time_step", 7, 0], ["time_step", 3, 100]]}]
+    return [{"clock": "datetime", "time": {"start": [2005, 7, 1], "days": 4, "step": 1}, "driver": 0, "pop": 2, "comps": comps,
+             "raiser": {"lid": 1200, "channel": "time_step", "from": 2}},
+            {"clock": "simple", "time": {"start": 0, "end": 6, "step": 2}, "driver": 1, "pop": 1,
+             "comps": [{"hooks": {"5": 2, "8": 9}, "hand": [["simulation_end", 0, 100]]}],
+             "raiser": {"lid": 1200, "channel": "simulation_end", "from": 0}}]
+
+
+# ---- shrinking (minimal replays) ----------------------------------------------------------------------------------
+def shrink_chan(case):
+    import copy
+    regs = case["regs"]
+    if len(regs) > 3:
+        c = copy.deepcopy(case); c["regs"] = regs[:len(regs) // 2]; yield c
+        c = copy.deepcopy(case); c["regs"] = regs[len(regs) // 2:]; yield c
+    for i in range(len(regs)):
+        c = copy.deepcopy(case); del c["regs"][i]; yield c
+    if case["nch"] > 1 and all(r[0] < case["nch"] - 1 for r in regs):
+        c = copy.deepcopy(case); c["nch"] -= 1; yield c
+    if case["stamps"]:
+        c = dict(case); c["stamps"] = False; yield c
+
+
+def shrink_sim(case):
+    import copy
+    keep = case.get("raiser", {}).get("lid")
+    for i in range(len(case["comps"])):
+        if len(case["comps"]) > 1 and not (keep and keep // 1000 == i + 1) and i == len(case["comps"]) - 1:
+            c = copy.deepcopy(case); del c["comps"][i]; yield c        # only the last one (listener ids are positional)
+    for i, spec in enumerate(case["comps"]):
+        for h in list(spec["hooks"]):
+            c = copy.deepcopy(case); del c["comps"][i]["hooks"][h]; yield c
+        for j, hd in enumerate(spec["hand"]):
+            if not (keep and hd[2] == 100):
+                c = copy.deepcopy(case); del c["comps"][i]["hand"][j]; yield c
+        for h, p in spec["hooks"].items():
+            if p is not None:
+                c = copy.deepcopy(case); c["comps"][i]["hooks"][h] = None; yield c
+    t = case["time"]
+    if "days" in t and t["days"] > 1:
+        for d in (1, t["days"] // 2, t["days"] - 1):
+            if 0 < d < t["days"]:
+                c = copy.deepcopy(case); c["time"]["days"] = d; yield c
+    if "end" in t and t["end"] - t["start"] > t["step"]:
+        c = copy.deepcopy(case); c["time"]["end"] = t["start"] + t["step"] * max(1, int((t["end"] - t["start"]) / t["step"] / 2)); yield c
+    for i in range(len(case.get("ends", []))):
+        if len(case["ends"]) > 1:
+            c = copy.deepcopy(case); del c["ends"][i]; del c["via"][i]; yield c
+    if case.get("mods") and len(case["mods"]) > 1:
+        c = copy.deepcopy(case); c["mods"] = case["mods"][:-1]; c["pop"] = len(c["mods"]); yield c
+    if case["pop"] > 1 and not case.get("mods"):
+        c = copy.deepcopy(case); c["pop"] = 1; yield c
+
+
 def finding_sim(case, res):
     if isinstance(res.obs, dict) and res.obs.get("finding_class") == "F-V":
         return "F-V"
@@ -813,11 +1037,13 @@ def streams(tier):
     imp = "From Viv Require Import Common Events Stepper."
     return [
         Stream(name="chan", imports="From Viv Require Import Common Events.", check="check_chan", gen=gen_chan, run=run_chan,
-               n_quick=500, n_thorough=8000),
+               n_quick=500, n_thorough=8000, shrink=shrink_chan),
         Stream(name="grid", imports=imp, check="check_sim", gen=gen_grid, run=run_sim, n_quick=60, n_thorough=900,
-               corpus=grid_corpus, finding_of=finding_sim),
+               corpus=grid_corpus, finding_of=finding_sim, shrink=shrink_sim),
         Stream(name="sim", imports=imp, check="check_sim", gen=gen_sim, run=run_sim, n_quick=60, n_thorough=600,
-               finding_of=finding_sim),
+               finding_of=finding_sim, shrink=shrink_sim),
         Stream(name="var", imports=imp, check="check_sim", gen=gen_var, run=run_sim, n_quick=40, n_thorough=500,
-               corpus=var_corpus, finding_of=finding_sim),
+               corpus=var_corpus, finding_of=finding_sim, shrink=shrink_sim),
+        Stream(name="raise", imports=imp, check="check_raise", gen=gen_raise, run=run_sim, n_quick=40, n_thorough=500,
+               corpus=raise_corpus, finding_of=finding_sim, shrink=shrink_sim),
     ]
